@@ -61,7 +61,7 @@ try:
     dst = "/verif/seeded/%s" % sid
     os.makedirs(dst, exist_ok=True)
     for f in ("patch.diff", "demo.py", "notes.txt"):
-        if os.path.exists(os.path.join(src, f)): shutil.copy(os.path.join(src, f), dst)
+        if os.path.exists(os.path.join(src, f)) and os.path.realpath(src) != os.path.realpath(dst): shutil.copy(os.path.join(src, f), dst)
     notes = open(os.path.join(src, "notes.txt")).read() if os.path.exists(os.path.join(src, "notes.txt")) else ""
     meta["breaks"] = prop
     meta["needs_to_manifest"] = notes[:1500]
